@@ -127,7 +127,7 @@ class DerivCheckUnit(Unit):
                 corrupt = [which, rr, cc, delta]
             cases.append({"spec": spec.to_json(), "sc": sc, "corrupt": corrupt, "x0": x0, "y0": y0,
                           "first": r.random() < 0.85, "second": r.random() < 0.85, "eps": 2.0 ** -10, "atol": atol,
-                          "fmt": r.choice(["coo", "csr", "csc"])})
+                          "fmt": r.choice(["coo", "csr", "csc", "csc_dup"])})
         return cases
 
     def impl(self, case):
